@@ -68,7 +68,7 @@ for _v in ("v5", "v7"):
 reg(["C13"], H("fixed::error_common", unwind=3, timeout=600, mem_gb=10,
     desc="Error packet converts to Err", bounds={}))
 
-for _nm, _c, _tier in (("v5_count_30", 30, "thorough"), ("v5_count_31", 31, "quick"), ("v5_count_300", 300, "thorough"), ("v7_count_31", 31, "quick"), ("v7_count_257", 257, "thorough")):
+for _nm, _c, _tier in (("v5_count_30", 30, "thorough"), ("v5_count_31", 31, "thorough"), ("v5_count_300", 300, "thorough"), ("v7_count_31", 31, "thorough"), ("v7_count_257", 257, "thorough")):
     reg(["C03", "C02", "C01"], H("fixed::" + _nm, unwind=_c + 2, loops=[(r"nfv5fixed", 52 * _c + 40)], timeout=2400, mem_gb=20, fs=32768, tier=_tier,
         desc="%s::parse with header.count written = %d over exactly %d patterned records + 5 trailing bytes: decoded records == count, packet ends at 24+rec*count" % (_nm[:2].upper(), _c, _c),
         bounds={"count": _c, "record_bytes": "fixed pattern (concrete), last trailing byte symbolic"}))
@@ -112,7 +112,7 @@ for _nm, _shape, _tier in (("2f", "1 record x 2 fields", "quick"), ("1f_pad3", "
                           ("1f_0f_1f", "3 records with 1,0,1 fields", "thorough"),
                           ("1f_trunc", "1 complete record + a record header announcing 9 fields with 2 bytes left", "quick"),
                           ("only_trunc", "no complete record: header announcing 9 fields + 1 byte", "thorough")):
-    reg(["C04", "C06", "C01"], H("s9::s_v9_template_" + _nm, unwind=5, loops=[(r"many0::<&\[u8\], u8", 9)], timeout=1500, mem_gb=12, tier=_tier,
+    reg(["C04", "C06", "C01"], H("s9::s_v9_template_" + _nm, unwind=5, loops=[(r"many0::<&\[u8\], u8", 9), (r"nfv2s9", 8)], timeout=1500, mem_gb=12, tier=_tier,
         desc="v9::FlowSet::parse, template flowset shape [%s] vs a symbolic one-entry cache: records as sent, padding, consumption, cache post-state (last wins, others untouched, incomplete record ignored)" % _shape,
         bounds={"shape": _shape + " (written)", "symbolic": "template ids, field types/lengths, padding bytes, cached entry, probe id"}))
 for _nm, _shape, _tier in (("1_1", "1 scope + 1 option field + 2 padding", "quick"), ("2_0", "2 scope fields", "thorough"), ("0_2", "2 option fields + 3 padding", "thorough")):
@@ -207,25 +207,30 @@ reg(["C05"], H("p::p_ipfix_sets_after_skipped_kf", unwind=5, timeout=2400, mem_g
 
 
 # ---------------------------------------------------------------- serializers (C09, C10)
-reg(["C09", "C01"], H("ser::ser_v9_template", unwind=5, timeout=1500, mem_gb=12,
-    desc="V9: to_be_bytes(header + FlowSet::parse(template flowset)) == header bytes || flowset bytes incl. padding",
-    bounds={"body_bytes": "<=12 (symbolic length)", "records": "<=3"}))
-reg(["C09", "C01"], H("ser::ser_v9_options_template", unwind=5, timeout=1500, mem_gb=12, tier="thorough",
-    desc="V9: options-template flowset re-export == input incl. padding", bounds={"body_bytes": "<=14"},
-    assumptions=["scope/option lengths are multiples of 4 (RFC 3954)"]))
-reg(["C09", "C01"], H("ser::ser_v9_data", unwind=9, timeout=2400, mem_gb=30,
-    desc="V9: data flowset (1 unsigned field of 2..4 bytes, 7-byte body => 1..3 records + padding) re-export == input incl. padding",
-    bounds={"body_bytes": 7, "field_length": "2..=4"}, assumptions=[_K9]))
+for _nm, _shape, _tier in (("2f", "1 record x 2 fields", "quick"), ("1f_pad3", "1 record x 1 field + 3 padding bytes", "quick"), ("1f_1f", "2 records x 1 field + 2 padding bytes", "thorough")):
+    reg(["C09", "C01"], H("ser::ser_v9_template_" + _nm, unwind=5, loops=[(r"many0::<&\[u8\], u8", 9), (r"nfv3ser", 24)], timeout=1500, mem_gb=12, tier=_tier,
+        desc="V9: to_be_bytes(header + FlowSet::parse(template flowset [%s])) == header bytes || flowset bytes incl. padding" % _shape,
+        bounds={"shape": _shape + " (written)", "symbolic": "ids, field types/lengths, padding bytes, packet header"}))
+reg(["C09", "C01"], H("ser::ser_v9_options_template_1_1", unwind=5, loops=[(r"many0::<&\[u8\], u8", 9), (r"nfv3ser", 24)], timeout=1500, mem_gb=12, tier="thorough",
+    desc="V9: options-template flowset (1 scope + 1 option field + 2 padding) re-export == input", bounds={"shape": "written"}))
+for _l, _tier in ((2, "quick"), (3, "thorough"), (4, "thorough")):
+    reg(["C09", "C01"], H("ser::ser_v9_data_%d" % _l, unwind=5, loops=[(r"nfv3ser", 24)], timeout=2400, mem_gb=20, tier=_tier,
+        desc="V9: data flowset (one unsigned field of %d bytes, 7-byte body: %d records + %d padding) decode + re-export == input incl. padding" % (_l, 7 // _l, 7 % _l),
+        bounds={"body_bytes": 7, "field_length": _l}, assumptions=[_K9]))
 reg(["C09", "C01"], H("ser::ser_v9_options_data", unwind=9, timeout=2400, mem_gb=30, tier="thorough",
     desc="V9: options-data flowset (1 scope + 1 option field, padding) re-export == input", bounds={"body_bytes": 6}))
-reg(["C10", "C01"], H("ser::ser_ipfix_template_plain", unwind=5, timeout=1500, mem_gb=12,
-    desc="IPFIX: template set (1 record, <=2 plain specifiers, padding) re-export == input",
-    bounds={"set_bytes": "<=23"}))
-reg(["C10"], H("ser::ser_ipfix_template_enterprise_kf", unwind=5, timeout=1500, mem_gb=12, expect="fail", finding="C10-enterprise-bit",
-    desc="finding witness: enterprise specifier re-exported without the E bit", bounds={"set_bytes": "<=23"}))
-reg(["C10", "C01"], H("ser::ser_ipfix_data", unwind=9, timeout=2400, mem_gb=30,
-    desc="IPFIX: data set (1 unsigned field of 2..4 bytes, 7-byte body) re-export == input incl. padding",
-    bounds={"body_bytes": 7}, assumptions=[_K9]))
+reg(["C09", "C01"], H("ser::ser_v9_short_length", unwind=5, timeout=900, mem_gb=8,
+    desc="V9: template / options-template flowset with length field 0..3 re-exports as its 4 header bytes", bounds={"length": "0..=3"}))
+reg(["C10", "C01"], H("ser::ser_ipfix_template_plain", unwind=5, loops=[(r"many0::<&\[u8\], u8", 9), (r"nfv3ser", 24)], timeout=1500, mem_gb=12,
+    desc="IPFIX: template set (1 record, 2 plain specifiers, 2 padding bytes) re-export == input", bounds={"shape": "written"}))
+reg(["C10", "C01"], H("ser::ser_ipfix_template_plain_1", unwind=5, loops=[(r"many0::<&\[u8\], u8", 9), (r"nfv3ser", 24)], timeout=1500, mem_gb=12, tier="thorough",
+    desc="IPFIX: template set (1 record, 1 plain specifier, 3 padding bytes) re-export == input", bounds={"shape": "written"}))
+reg(["C10"], H("ser::ser_ipfix_template_enterprise_kf", unwind=5, loops=[(r"many0::<&\[u8\], u8", 9), (r"nfv3ser", 24)], timeout=1500, mem_gb=12, expect="fail", finding="C10-enterprise-bit",
+    desc="finding witness: enterprise specifier re-exported without the E bit", bounds={"shape": "enterprise + plain specifier"}))
+for _l, _tier in ((2, "quick"), (4, "thorough")):
+    reg(["C10", "C01"], H("ser::ser_ipfix_data_%d" % _l, unwind=5, loops=[(r"nfv3ser", 24)], timeout=2400, mem_gb=30, tier=_tier,
+        desc="IPFIX: data set (one unsigned field of %d bytes, 5-byte body) decode + re-export == input incl. padding" % _l,
+        bounds={"body_bytes": 5, "field_length": _l}, assumptions=[_K9]))
 reg(["C10"], H("ser::ser_ipfix_varlen_kf", unwind=9, timeout=1500, mem_gb=12, expect="fail", finding="C10-varlen-prefix",
     desc="finding witness: variable-length prefix not re-exported", bounds={"body_bytes": 3}, assumptions=[_K9]))
 
@@ -287,7 +292,7 @@ reg(["C17"], H("d10::d_ipfix_unknown_field_off", unwind=8, feature="off", timeou
     assumptions=[_OFF, "kernel replaced by the model 'Unknown => Err' that k::k_unknown_off shows exact"]))
 reg(["C17"], H("s9::s_v9_template_2f", unwind=5, feature="off", timeout=1500, mem_gb=12, tier="thorough",
     desc="feature off: V9 template flowset decoding/caching equals the default build's reference", bounds={"shape": "1 record x 2 fields"}, assumptions=[_OFF]))
-reg(["C17"], H("ser::ser_v9_data", unwind=9, feature="off", timeout=2400, mem_gb=30, tier="thorough",
+reg(["C17"], H("ser::ser_v9_data_2", unwind=5, loops=[(r"nfv3ser", 24)], feature="off", timeout=2400, mem_gb=30, tier="thorough",
     desc="feature off: V9 data flowset decode + re-export equals the default build's reference", bounds={"body_bytes": 7}, assumptions=[_OFF, _K9]))
 reg(["C17"], H("fixed::v5_common_2", unwind=4, feature="off", timeout=900, mem_gb=8, tier="thorough",
     desc="feature off: common conversion unchanged (V5)", bounds={"records": 2}, assumptions=[_OFF]))
@@ -308,8 +313,6 @@ for _nm, _w, _tier in (("v5_entry_1", "V5 count 1 + 3 trailing bytes", "quick"),
     reg(["C02", "C11", "C14", "C01"], H("w::wr_" + _nm, unwind=4, timeout=1500, mem_gb=12, tier=_tier,
         desc="%s through the V5Parser/V7Parser entry: remaining is the exact suffix, truncation => Partial with the right version" % _w,
         bounds={"shape": _w + " (count written)"}))
-reg(["C09", "C01"], H("ser::ser_v9_short_length", unwind=5, timeout=900, mem_gb=8,
-    desc="V9: template / options-template flowset with length field 0..3 re-exports as its 4 header bytes", bounds={"length": "0..=3"}))
 
 
 def all_harnesses():
